@@ -240,6 +240,34 @@ pub fn check_doc(html: &[u8], w: usize, dec: &Dec, f: &Facts, cx: &mut Cx) {
             }
         }
     }
+    // a setter called with the value the configuration already has is a no-op, alone and after
+    // another option (builder state shared between two options)
+    {
+        let firsts: Vec<Option<Opt>> = vec![None, Some(Opt::NoBorders), Some(Opt::Pad), Some(Opt::NoLinkWrap), Some(Opt::Footnotes(!footnotes_default)), Some(Opt::Strike(false)), Some(Opt::MaxWrap(w.saturating_sub(1).max(1)))];
+        for first in firsts {
+            let c0 = match &first {
+                Some(o) => base_cfg.clone().with(o.clone()),
+                None => base_cfg.clone(),
+            };
+            let r0 = cx.render(html, w, &c0);
+            cx.state(1);
+            let mut seconds = vec![Opt::RawOff, Opt::MinWrap(3)];
+            if !matches!(first, Some(Opt::Strike(_))) {
+                seconds.push(Opt::Strike(true));
+            }
+            if !matches!(first, Some(Opt::Footnotes(_))) {
+                seconds.push(Opt::Footnotes(footnotes_default));
+            }
+            for second in seconds {
+                let c1 = c0.clone().with(second);
+                let r1 = cx.render(html, w, &c1);
+                cx.state(1);
+                if r1 != r0 {
+                    fail(cx, &format!("a setter called with the default value changed the output: {}", c1.short()), &c1, &r1, &r0);
+                }
+            }
+        }
+    }
     if relevant {
         cx.nontrivial();
     }
